@@ -167,5 +167,135 @@ Qed.
 Lemma set_reading_frame' st st' v i : set_reading NO st I v i = Ok st' -> frame NAMES st st'.
 Proof. intros H. eapply frame_mono; [apply own_in_names|]. eapply set_reading_frame. exact H. Qed.
 
+
+(* every _calculate_reading only changes the store through managed set_reading /
+   calculate_index calls and (MACD) one direct write under its own name *)
+Ltac frame_step :=
+  match goal with
+  | H : Err _ = Ok _ |- _ => discriminate H
+  | H : ret _ _ _ = Ok _ |- _ => unfold ret in H
+  | H : Ok (_, _) = Ok (_, _) |- _ => inversion H; subst; clear H
+  | H : Ok _ = Ok _ |- _ => inversion H; subst; clear H
+  | H : bind ?m _ = Ok _ |- _ =>
+      let E := fresh "E" in destruct m eqn:E; cbn [bind] in H; [|discriminate H]
+  | H : (if ?b then _ else _) = Ok _ |- _ =>
+      match type of H with context [rec] => idtac | context [set_ind_direct] => idtac | context [@ret] => idtac end;
+      let B := fresh "B" in destruct b eqn:B
+  | H : match ?x with _ => _ end = Ok _ |- _ =>
+      match type of H with context [rec] => idtac | context [set_ind_direct] => idtac | context [@ret] => idtac end;
+      let X := fresh "X" in destruct x eqn:X
+  end.
+Ltac frame_facts :=
+  repeat match goal with
+  | H : managed_set _ _ _ _ _ _ ?a = Ok ?b |- _ => apply managed_set_frame in H
+  | H : managed_calc_index _ _ _ _ _ ?a = Ok ?b |- _ => apply managed_calc_index_frame in H
+  end.
+Ltac frame_close := frame_facts; eauto 8 using frame_refl, frame_trans.
+
+Lemma calc_reading_frame st i v st' : calc_reading NO rec I st i = Ok (v, st') -> frame NAMES st st'.
+Proof.
+  intros H. unfold calc_reading in H.
+  destruct (i_kind NO I) eqn:K;
+    repeat frame_step;
+    try solve [frame_close].
+  (* MACD: the direct write goes to candle.indicators under the node's own name *)
+  match goal with E : set_ind_direct _ _ _ _ _ = Ok _ |- _ => apply set_ind_direct_frame in E; rename E into Ed end.
+  assert (Hs : i_sub NO I = false) by (destruct Hwf as (Hm & _); rewrite K in Hm; exact Hm).
+  assert (Hd : frame NAMES st a2).
+  { eapply frame_mono; [|exact Ed]. intros x [<-|[]]. left. rewrite Hs. reflexivity. }
+  frame_close.
+Qed.
+
+Lemma calc_loop_frame : forall idxs skip st st',
+  (forall i a v b, rec (RReading NO i) I a = Ok (v, b) -> frame NAMES a b) ->
+  calc_loop NO rec I idxs skip st = Ok st' -> frame NAMES st st'.
+Proof.
+  induction idxs as [|i idxs IH]; intros skip st st' HR H; cbn [calc_loop] in H; [inversion H; apply frame_refl|].
+  match type of H with bind ?m _ = _ => destruct m as [present|e] eqn:Ep; cbn [bind] in H; [|discriminate] end.
+  destruct present; [eapply IH; eassumption|].
+  destruct (rec (RReading NO i) I st) as [[v st1]|] eqn:Er; cbn [bind] in H; [|discriminate].
+  destruct (set_reading NO st1 I (round_val NO (i_round NO I) v) i) as [st2|] eqn:Es; cbn [bind] in H; [|discriminate].
+  eapply frame_trans; [eapply HR; exact Er|].
+  eapply frame_trans; [eapply set_reading_frame'; exact Es|].
+  eapply IH; eassumption.
+Qed.
 End Step.
+
+(* more fuel only adds names, and a tree well-formed at some depth is well-formed below *)
+Lemma tree_names_mono : forall f (I : ind), incl (tree_names NO f I) (tree_names NO (S f) I).
+Proof.
+  induction f as [|f IH]; intros I x Hx; [destruct Hx|].
+  cbn [tree_names] in *. destruct Hx as [<-|Hx]; [left; reflexivity|right].
+  apply in_app_or in Hx. apply in_or_app. destruct Hx as [Hx|Hx]; [left|right].
+  - apply in_flat_map in Hx. destruct Hx as (s & Hs & Hx). apply in_flat_map. exists s. split; [exact Hs|apply IH; exact Hx].
+  - apply in_flat_map in Hx. destruct Hx as (s & Hs & Hx). apply in_flat_map. exists s. split; [exact Hs|apply IH; exact Hx].
+Qed.
+Lemma wf_tree_lower : forall f (I : ind), wf_tree (S f) I -> wf_tree f I.
+Proof.
+  induction f as [|f IH]; intros I H; [exact Logic.I|].
+  destruct H as (Hm & Hs & Hg). split; [exact Hm|]. split.
+  - rewrite Forall_forall in *. intros x Hx. apply IH. apply Hs. exact Hx.
+  - rewrite Forall_forall in *. intros x Hx. apply IH. apply Hg. exact Hx.
+Qed.
+
+(* the engine as a whole *)
+Theorem run_frame : forall fuel req (I : ind) st v st',
+  wf_tree fuel I -> run NO fuel req I st = Ok (v, st') -> frame (tree_names NO fuel I) st st'.
+Proof.
+  induction fuel as [|f IH]; intros req I st v st' Hwf H; [discriminate|].
+  cbn [run] in H.
+  assert (HR : forall i a w b, run NO f (RReading NO i) I a = Ok (w, b) -> frame (tree_names NO (S f) I) a b).
+  { intros i a w b Hr. eapply frame_mono; [apply tree_names_mono|]. eapply IH; [apply wf_tree_lower; exact Hwf|exact Hr]. }
+  destruct req as [| s0 e0 | i | w i]; cbn [step] in H.
+  - repeat match type of H with bind ?m _ = _ => let E := fresh "E" in destruct m eqn:E; cbn [bind] in H; [|discriminate] end.
+    inversion H; subst.
+    eapply frame_trans; [eapply (run_subs_frame f); eassumption|].
+    eapply frame_trans; [|eapply (run_subs_frame f); eassumption].
+    eapply (calc_loop_frame f); eassumption.
+  - repeat match type of H with bind ?m _ = _ => let E := fresh "E" in destruct m eqn:E; cbn [bind] in H; [|discriminate] end.
+    inversion H; subst.
+    eapply frame_trans; [eapply (run_subs_frame f); eassumption|].
+    eapply frame_trans; [|eapply (run_subs_frame f); eassumption].
+    eapply (calc_loop_frame f); eassumption.
+  - eapply (calc_reading_frame f); eassumption.
+  - repeat match type of H with bind ?m _ = _ => let E := fresh "E" in destruct m eqn:E; cbn [bind] in H; [|discriminate] end.
+    inversion H; subst.
+    eapply frame_trans; [eapply (run_subs_frame f); eassumption|].
+    eapply frame_trans; [|eapply (run_subs_frame f); eassumption].
+    eapply (set_reading_frame' f); eassumption.
+Qed.
+
+(* every tree built by [top] from a shipped kind is well formed (decided by computation) *)
+Fixpoint wf_treeb (fuel : nat) (I : ind) : bool :=
+  match fuel with
+  | O => true
+  | S f => (match i_kind NO I with K_MACD _ _ _ _ => negb (i_sub NO I) | _ => true end) &&
+           forallb (wf_treeb f) (i_subs NO I) && forallb (fun km => wf_treeb f (snd km)) (i_managed NO I)
+  end.
+Lemma wf_treeb_sound : forall fuel I, wf_treeb fuel I = true -> wf_tree fuel I.
+Proof.
+  induction fuel as [|f IH]; intros I H; [exact Logic.I|].
+  cbn [wf_treeb] in H. apply andb_prop in H. destruct H as [H H3]. apply andb_prop in H. destruct H as [H1 H2].
+  split; [|split].
+  - destruct (i_kind NO I); try exact Logic.I. destruct (i_sub NO I); [discriminate|reflexivity].
+  - rewrite Forall_forall. rewrite forallb_forall in H2. intros x Hx. apply IH. apply H2. exact Hx.
+  - rewrite Forall_forall. rewrite forallb_forall in H3. intros x Hx. apply IH. apply H3. exact Hx.
+Qed.
+Lemma wf_top (k : kind NO) name rnd : wf_tree FUEL (top NO k name rnd).
+Proof. apply wf_treeb_sound. destruct k; reflexivity. Qed.
+
+(* Corollary for the public operations on a shipped indicator *)
+Theorem calculate_frame (k : kind NO) name rnd st st' :
+  calculate NO (top NO k name rnd) st = Ok st' -> frame (tree_names NO FUEL (top NO k name rnd)) st st'.
+Proof.
+  unfold calculate. destruct (run NO FUEL (RCalculate NO) (top NO k name rnd) st) as [[v x]|] eqn:E; cbn [bind]; [|discriminate].
+  intros H. inversion H; subst. eapply run_frame; [apply wf_top|exact E].
+Qed.
+Theorem calculate_index_frame (k : kind NO) name rnd s e st st' :
+  calculate_index NO (top NO k name rnd) s e st = Ok st' -> frame (tree_names NO FUEL (top NO k name rnd)) st st'.
+Proof.
+  unfold calculate_index. destruct (run NO FUEL (RCalcIndex NO s e) (top NO k name rnd) st) as [[v x]|] eqn:E; cbn [bind]; [|discriminate].
+  intros H. inversion H; subst. eapply run_frame; [apply wf_top|exact E].
+Qed.
+
 End Frame.
